@@ -145,7 +145,7 @@ def scope_analysis(fn, attr, clause_gen):
     return exits, events
 
 
-def rule_excscope(ctx, floor=5):
+def rule_excscope(ctx, floor=4):     # 6 today; extracting save/set/loop/restore into a helper moves the two 'outside' obligations out of the writer (4 remain)
     ix = ctx.index
     r = Rule('C23-EXCSCOPE', 'the handled-exception context of the code generator (funcstate attribute the yield sites test to keep or drop the exception a suspended generator is '
              'handling, and the re-raise variables) is dynamically scoped: every method that sets it restores the value found on entry on every exit, generates except clauses '
